@@ -288,13 +288,13 @@ def corr_shard(kind, seed, n, compare_model=True, extra_env=None, lines=None):
         if out == "fuel":
             r.hangs += 1
         if verdict.startswith("fail"):
-            r.oracle_fail.append({"kind": kind, "seed": seed, "session": session_of(lines, i), "verdict": verdict, "impl": out})
+            r.oracle_fail.append({"kind": kind, "seed": seed, "session": session_of(lines, i), "verdict": verdict, "impl": out, "env": extra_env})
         elif verdict.startswith("ok"):
             r.oracle_ok += 1
         if compare_model:
             r.compared += 1
             if model[i] != out:
-                r.disagreements.append({"kind": kind, "seed": seed, "session": session_of(lines, i), "impl": out, "model": model[i]})
+                r.disagreements.append({"kind": kind, "seed": seed, "session": session_of(lines, i), "impl": out, "model": model[i], "env": extra_env})
     return r
 
 
@@ -371,9 +371,9 @@ def verdict_class(v):
     return v.split(" ")[0]
 
 
-def fails_again(kind, session, want=None, want_out=None):
+def fails_again(kind, session, want=None, want_out=None, env=None):
     """the last line of the session still fails — in the same way (same verdict class, same implementation output)"""
-    go = run_go(kind, session)
+    go = run_go(kind, session, extra_env=env)
     if go[-1] is None or not go[-1][1].startswith("fail"):
         return False
     if want_out is not None and go[-1][0] != want_out:
@@ -419,7 +419,7 @@ def do_replay(path):
         if "runner" in c:
             RUNNERS[c["kind"]] = c["runner"]
     lines = d["session"]
-    go = run_go(d["kind"], lines)
+    go = run_go(d["kind"], lines, extra_env=d.get("env"))
     model = run_model(lines)
     for i, l in enumerate(lines):
         print("case :", l[:300])
